@@ -65,7 +65,14 @@ Inductive c18case :=
         (impl_rows : list (list (list val) * N)) (completed : bool)
   (* arbitrary lines (first one = header) -> csv.load *)
 | CParse (sep : list Z) (esc : Z) (types : list ty) (tb : tabs) (lines : list (list Z))
-         (impl_rows : list (list val)) (completed : bool).
+         (impl_rows : list (list val)) (completed : bool)
+  (* rows -> csv.dump -> text cut again into the given chunks -> line.unframe -> csv.load -> rows *)
+| CChunk (sep : list Z) (esc : Z) (types : list ty) (names : list (list Z)) (tb : tabs)
+         (rows : list (list (list val) * N)) (chunks : list (list Z))
+         (impl_rows : list (list (list val) * N)) (completed : bool)
+  (* scale case (a line of several read chunks, a file of several MiB): judged by the round-trip oracle alone,
+     the list-based model is quadratic in the length of a line *)
+| CSkip.
 
 Definition c18_check (c : c18case) : bool :=
   match c with
@@ -84,6 +91,13 @@ Definition c18_check (c : c18case) : bool :=
                     (expand impl_rows, completed)
   | CParse sep esc types tb lines impl_rows completed =>
       result_eqb (load fl (tab_int_of tb) (tab_float_of tb) sep esc types lines) (impl_rows, completed)
+  | CChunk sep esc types names tb rows chunks impl_rows completed =>
+      laws_ok sep tb
+      && zs_eqb (concat (dump_lines fl (tab_str_int tb) (tab_str_float tb) sep esc [newline] names (expand rows)))
+                (concat chunks)
+      && result_eqb (load_chunks fl (tab_int_of tb) (tab_float_of tb) sep esc types chunks)
+                    (expand impl_rows, completed)
+  | CSkip => true
   end.
 
 (* what the model says for a case (printed into replay files) *)
@@ -98,4 +112,9 @@ Definition c18_model (c : c18case) : list (list Z) * (list (list val) * bool) :=
       (ls, load_file fl (tab_int_of tb) (tab_float_of tb) sep esc types (concat ls))
   | CParse sep esc types tb lines _ _ =>
       ([], load fl (tab_int_of tb) (tab_float_of tb) sep esc types lines)
+  | CChunk sep esc types names tb rows chunks _ _ =>
+      let ls := dump_lines fl (tab_str_int tb) (tab_str_float tb) sep esc [newline] names (firstn 3 (expand rows)) in
+      (ls, load_chunks fl (tab_int_of tb) (tab_float_of tb) sep esc types
+                       (chunks_of (N.of_nat (length (hd [] chunks))) (concat ls)))
+  | CSkip => ([], ([], true))
   end.
